@@ -84,6 +84,10 @@ def gen_mq(rng):
             script.append([t, a, m] + ([rng.random() < 0.6] if a == "rej" else []))
         else:
             script.append([t, "poll"])
+    if cfg["dlq"] and rng.random() < 0.08:
+        script.insert(rng.randint(len(script) // 2, len(script)), [t + rng.randint(0, 30), "reprocess"])
+        script.sort(key=lambda a: a[0])
+        t = script[-1][0]
     # a few trailing polls so that requeued / timed-out messages get another chance
     for _ in range(rng.randint(0, 6)):
         t += rng.choice([1, 2, 4, 8, 16])
@@ -245,6 +249,16 @@ class _MQTracer:
                 except StopIteration as e:
                     return e.value
 
+        if self.dlq is not None:
+            o_reproc = self.dlq.reprocess_all
+
+            def reprocess_all(target_queue):
+                evs = o_reproc(target_queue)
+                T.rec(["DlqReprocessAll"], [])
+                return evs
+
+            self.dlq.reprocess_all = reprocess_all
+
         q.subscribe, q.unsubscribe, q.acknowledge, q.reject = subscribe, unsubscribe, acknowledge, reject
         q.schedule_redelivery, q.publish, q._deliver_message, q.poll = schedule_redelivery, publish, deliver, poll
 
@@ -313,6 +327,8 @@ def impl_mq(c):
             if k == "dpoll":
                 ev2 = yield from q.poll()
                 return [ev2] if ev2 is not None else []
+            if k == "reprocess":
+                return dlq.reprocess_all(q) if dlq is not None else []
             if k == "sub":
                 q.subscribe(consumers[a[2]])
             elif k == "unsub":
@@ -368,6 +384,8 @@ def oracle_mq(c, obs):
     lat = cfg["latency"] * UNIT_NS
 
     # (1) accounting after every operation
+    reprocessed = set()
+
     def accounting(s, where):
         lost_possible = cfg["dlq"] and cfg["dlqcap"] is not None and s["ctr"][6] > 0
         for i, (count, state, _cons) in enumerate(s["objs"]):
@@ -378,6 +396,10 @@ def oracle_mq(c, obs):
                 ok = (p + f == 1) and m == 1 and not in_dead and state in (0, 1)
             else:
                 ok = (p + f == 0) and state in (2, 3)
+                if ok and state == 3 and cfg["dlq"] and i in reprocessed and not in_dead:
+                    return dict(clause="mq: every published message stays accounted for and is never lost",
+                                mechanism="dlq-reprocess-ignored", where=where, message=i,
+                                what="DeadLetterQueue.reprocess_all hands the queue 'republish' events that MessageQueue.handle_event ignores: the message leaves the DLQ and never re-enters the queue")
                 if ok and state == 3 and cfg["dlq"]:
                     ok = in_dead == 1 or lost_possible
                 if ok and state == 2:
@@ -387,7 +409,11 @@ def oracle_mq(c, obs):
                             where=where, message=i, pending=p, in_flight=f, stored=m, state=state, dead=in_dead,
                             acked=term_ack)
         return None
+    prev_dead = []
     for k, e in enumerate(tr):
+        if e["op"][0] == "DlqReprocessAll":
+            reprocessed |= {i for i in prev_dead if i not in e["snap"]["dead"]}
+        prev_dead = e["snap"]["dead"]
         bad = accounting(e["snap"], k)
         if bad:
             fails.append(bad)
@@ -499,6 +525,12 @@ def oracle_mq(c, obs):
         fails.append(dict(clause="mq: nothing is delivered again after it was acknowledged", mechanism="delivery-after-ack",
                           how=how, message=m, consumer=cons, time=t))
     return fails[:4]
+
+
+def attribute_mq(c, obs, f):
+    if f.get("mechanism") == "dlq-reprocess-ignored":
+        return "C19-dlq-reprocess-ignored"
+    return None
 
 
 def nontrivial_mq(c, obs):
@@ -1140,7 +1172,7 @@ OUTBOX_CASE = "obcfg * list (oop * list oout * osnap)"
 MQ_CASE = "mqcfg * list (op * list out * dsnap)"
 
 FAMILIES = [
-    Family("mq", IMPORTS, "ok_mq", MQ_CASE, gen_mq, impl_mq, encode_mq, oracle_mq, nontrivial_mq,
+    Family("mq", IMPORTS, "ok_mq", MQ_CASE, gen_mq, impl_mq, encode_mq, oracle_mq, nontrivial_mq, attribute_mq,
            parallel=False, describe=describe_mq),
     Family("topic", IMPORTS_T, "ok_topic", TOPIC_CASE, gen_topic, impl_topic, encode_topic, oracle_topic,
            lambda c, o: any(e["op"][0] == "TPublishResume" for e in o["trace"]), parallel=False,
@@ -1168,7 +1200,7 @@ def run(ctx):
                "C19/OutboxModel.v", "C19/Outbox.v", "C19/Props.v"], allowed_axioms=(), trusted_base=TRUSTED)
     ctx.coq_cases = lambda tag, imports, ok_fn, case_type, cases: coq.eval_cases(
         f"{ctx.pid}_{tag}", imports, ok_fn, case_type, cases, shard=min(100, max(30, len(cases) // 10 + 1)), workers=10)
-    counts = {"mq": ctx.n(90, 1200), "topic": ctx.n(60, 800), "stream": ctx.n(90, 1200), "outbox": ctx.n(50, 600)}
+    counts = {"mq": ctx.n(90, 800), "topic": ctx.n(60, 500), "stream": ctx.n(90, 800), "outbox": ctx.n(50, 400)}
     stats = [run_family(ctx, fam, counts[fam.name]) for fam in FAMILIES]
     merge_stats(ctx, stats, "scripted scenarios in a real Simulation; non-trivial = at least one completed delivery and one ack/reject/timeout; distinct by JSON of the input")
     ctx.finish_obligations()
